@@ -39,8 +39,13 @@ func c05States(c mcfg) []c05State {
 	st = append(st, c05State{"dir-after-partial-in-place-walk-ending-at-a-file", []mevent{att, clone, {Op: "walk", Fid: 1, Newfid: 1, Names: []string{"f", "zz"}}}})
 	st = append(st, c05State{"dir-after-failed-walk-to-new-fid", []mevent{att, dir, {Op: "walk", Fid: 1, Newfid: 2, Names: []string{"zz"}}}})
 	st = append(st, c05State{"file-after-refused-open", []mevent{att, file, {Op: "open", Fid: 1, Mode: 1}, {Op: "open", Fid: 1, Mode: 0}}})
-	st = append(st, c05State{"file-after-failed-open", []mevent{att, file, {Op: "open", Fid: 1, Mode: 1, ImplErr: true}}})
-	st = append(st, c05State{"dir-after-failed-create", []mevent{att, dir, {Op: "create", Fid: 1, Name: "q", Perm: 0644, Mode: 1, ImplErr: true}}})
+	// an open or create the implementation refuses leaves the fid unopened whatever mode was asked for
+	for _, m := range []uint8{0, 1, 2, 3, 2 | 16, 1 | 64} {
+		st = append(st, c05State{fmt.Sprintf("file-after-failed-open-mode%d", m), []mevent{att, file, {Op: "open", Fid: 1, Mode: m, ImplErr: true}}})
+		st = append(st, c05State{fmt.Sprintf("dir-after-failed-create-mode%d", m), []mevent{att, dir, {Op: "create", Fid: 1, Name: "q", Perm: 0644, Mode: m, ImplErr: true}}})
+	}
+	st = append(st, c05State{"dir-after-failed-open", []mevent{att, dir, {Op: "open", Fid: 1, Mode: 0, ImplErr: true}}})
+	st = append(st, c05State{"dir-after-failed-mkdir", []mevent{att, dir, {Op: "create", Fid: 1, Name: "qd", Perm: go9p.DMDIR | 0755, Mode: 0, ImplErr: true}}})
 	st = append(st, c05State{"created-file-open-OWRITE", []mevent{att, dir, {Op: "create", Fid: 1, Name: "n", Perm: 0644, Mode: 1}}})
 	st = append(st, c05State{"created-dir-open-OREAD", []mevent{att, dir, {Op: "create", Fid: 1, Name: "nd", Perm: go9p.DMDIR | 0755, Mode: 0}}})
 	if c.Auth {
